@@ -118,8 +118,10 @@ def main(tier):
         syms = o.get("symbols") or []
         if not G.assign_anon_scopes(prog, [s["path"] for s in syms], o.get("scopes")):
             continue
-        nok += 1
         files, fsrc = pfiles[o["id"]]
+        if not G.assign_file_scopes(files, o.get("file_scopes")):
+            continue
+        nok += 1
         lmap = line_map(prog)
         for fp in files.values():
             def g0(st, scope):
